@@ -39,13 +39,22 @@ Inductive dop := DSet (k : path) (v : list N) | DDel (k : path).
 
 Definition key_of (o : dop) : path := match o with DSet k _ | DDel k => k end.
 
+(** NAME_MAX: a directory entry holds at most 255 bytes.  The temporary of a set is the key's file name
+    plus a 4-byte extension; when that does not fit, open() refuses it (ENAMETOOLONG), the set raises
+    OSError before anything is created and the store is unchanged: the operation has no steps.  (File
+    names of 252..255 bytes therefore can never be stored; raw keys of 184..186 bytes encode to 252.) *)
+Definition NAME_MAX : nat := 255.
+Definition fits (k : path) : bool := Nat.leb (length k + 4) NAME_MAX.
+
 (** the system calls of one operation, decided (as the code does) by whether the key's file exists *)
 Definition op_prog (s : fs) (o : dop) : list step :=
   match o with
   | DSet k v =>
-      if exists_ s k
-      then SCreat (rpl_of k) :: write_steps (rpl_of k) v ++ [SUnlink k; SRename (rpl_of k) k]
-      else SCreat (new_of k) :: write_steps (new_of k) v ++ [SRename (new_of k) k]
+      if fits k then
+        if exists_ s k
+        then SCreat (rpl_of k) :: write_steps (rpl_of k) v ++ [SUnlink k; SRename (rpl_of k) k]
+        else SCreat (new_of k) :: write_steps (new_of k) v ++ [SRename (new_of k) k]
+      else []
   | DDel k => [SUnlink k]
   end.
 
@@ -89,7 +98,7 @@ Definition view (s : fs) (k : path) : option (list N) :=
 (** the abstract database: the effect of an operation on one key *)
 Definition spec_op (o : dop) (k : path) (old : option (list N)) : option (list N) :=
   match o with
-  | DSet k' v => if path_eqb k k' then Some v else old
+  | DSet k' v => if path_eqb k k' && fits k' then Some v else old
   | DDel k' => if path_eqb k k' then None else old
   end.
 
